@@ -294,6 +294,11 @@ def contains(eng, cont, item, node):
         return z3.Select(c.dom, eng.term(item, c.kt))
     if isinstance(c, BimapV):
         return z3.Select(c.fwd.dom, eng.term(item, c.fwd.kt))
+    if isinstance(c, Special) and c.tag == "emptyset":
+        return z3.BoolVal(False)
+    if isinstance(c, Special) and c.tag == "anyset":
+        # a set modified in a loop and havoc'd: membership is unknown
+        return z3.Bool(eng.fresh_name("anyset.mem"))
     if isinstance(c, P) and c.ty.kind == "set":
         if isinstance(item, OptV):
             return z3.And(item.some, z3.Select(c.term, eng.term(item.val, c.ty.args[0])))
